@@ -314,7 +314,7 @@ impl Ctx {
     pub fn mine(&mut self, i: u64) -> bool {
         let m = match &self.only {
             Some((_, o)) => *o == i,
-            None => (i % self.nworkers as u64) == self.worker as u64,
+            None => (i.wrapping_add(self.seed) % self.nworkers as u64) == self.worker as u64,
         };
         if m {
             self.cur_outer = i;
